@@ -204,9 +204,11 @@ type vGen struct {
 	toks []lexer.Token
 }
 
-func (g *vGen) t(tt lexer.TokenType, text string) { g.toks = append(g.toks, lexer.Token{Type: tt, Text: text}) }
-func (g *vGen) ident(s string)                    { g.t(lexer.Ident, s) }
-func (g *vGen) str(s string)                      { g.t(lexer.String, s) }
+func (g *vGen) t(tt lexer.TokenType, text string) {
+	g.toks = append(g.toks, lexer.Token{Type: tt, Text: text})
+}
+func (g *vGen) ident(s string) { g.t(lexer.Ident, s) }
+func (g *vGen) str(s string)   { g.t(lexer.String, s) }
 
 type vOpTok struct {
 	tt   lexer.TokenType
@@ -503,9 +505,10 @@ func VerifHarness_C05_Pipeline_2() { verifC05Pipeline(2) }
 
 // F3 label predicates
 type vLeaf struct {
-	show  string
-	valid bool
-	f16   bool // `label = ip(...)`: valid LogQL, rejected by this parser (finding F16)
+	show   string
+	valid  bool
+	f16    bool // `label = ip(...)`: valid LogQL, rejected by this parser (finding F16)
+	signed bool // a number literal with a sign
 }
 
 var vCmpOps = []vOpTok{
@@ -519,7 +522,15 @@ func (g *vGen) genLeaf(tag, label string) vLeaf {
 	numOK := isOrder || o.tt == lexer.CmpEq || o.tt == lexer.NotEq
 	g.ident(label)
 	g.t(o.tt, o.text)
-	switch vsymChoice(tag+"lit", 5) {
+	switch vsymChoice(tag+"lit", 7) {
+	case 5: // a signed number: `| a > -2.5`
+		g.t(lexer.Sub, "-")
+		g.t(lexer.Number, "2.5")
+		return vLeaf{show: "num:" + label + vOp(o.op) + "-2.5", valid: numOK, signed: true}
+	case 6:
+		g.t(lexer.Add, "+")
+		g.t(lexer.Number, "2.5")
+		return vLeaf{show: "num:" + label + vOp(o.op) + "2.5", valid: numOK, signed: true}
 	case 0:
 		g.str("y.*")
 		s := "str:" + label + vOp(o.op) + vQ("y.*")
@@ -556,6 +567,13 @@ func VerifHarness_C05_PredicateLeaf() {
 		vsymFinding("F16", err != nil, "`label = ip(\"...\")`, the documented LogQL spelling of an IP label filter, is rejected (only `==` and `!=` are accepted)")
 		vsymReach("C05_predicate_leaf")
 		return
+	}
+	if leaf.signed && leaf.valid {
+		if _, err := vParse(g.toks); err != nil {
+			vsymFinding("F41", true, "a signed number in a label filter (`| lat > -5`, `| x == +1`) is rejected with `unexpected token \"Sub\"`: only a bare number is accepted after the comparison operator")
+			vsymReach("C05_predicate_leaf")
+			return
+		}
 	}
 	vExpect(g.toks, "log"+sel+"|filter:"+leaf.show, leaf.valid, "label filter")
 	vsymReach("C05_predicate_leaf")
@@ -597,7 +615,7 @@ func VerifHarness_C05_PredicateChain() {
 	g := &vGen{}
 	g.genSelector("m", 0)
 	g.t(lexer.Pipe, "|")
-	links := make([]int, 2) // 0 and, 1 or, 2 comma, 3 juxtaposition
+	links := make([]int, 2)         // 0 and, 1 or, 2 comma, 3 juxtaposition
 	paren := vsymChoice("paren", 3) // 0 none, 1 (a L b) L c, 2 a L (b L c)
 	atom := func(i int) {
 		g.ident([]string{"a", "b", "c"}[i])
@@ -675,11 +693,11 @@ func VerifHarness_C05_PredicateChain() {
 
 // F4 range aggregations
 type vRangeOp struct {
-	tt      lexer.TokenType
-	text    string
-	op      RangeOp
-	group   bool // grouping allowed
-	unwrap  int  // 0 forbidden, 1 required, 2 either
+	tt     lexer.TokenType
+	text   string
+	op     RangeOp
+	group  bool // grouping allowed
+	unwrap int  // 0 forbidden, 1 required, 2 either
 }
 
 var vRangeOps = []vRangeOp{
